@@ -49,6 +49,7 @@ class Ctx:
         self.uid = 0
         self.ops = 0
         self.trace = os.path.join(env.root, "trace.jsonl")
+        self.index = int(name.split("#")[1]) if "#" in name else 0
 
     def repo(self, name="r"):
         r = self.env.repo(name)
@@ -267,6 +268,10 @@ def sc_commit(cx):
             k = cx.rng.random()
             if k < 0.5:
                 cx.ai_edit(r, nm, cx.rng.choice(["s1", "s2"]), n=cx.rng.randint(1, 3), delete=cx.rng.randint(0, 1))
+                if cx.rng.random() < 0.6:
+                    # a second and third separate run of AI lines in the same file (another session sometimes)
+                    cx.ai_edit(r, nm, cx.rng.choice(["s1", "s2"]), n=cx.rng.randint(1, 2))
+                    cx.ai_edit(r, nm, cx.rng.choice(["s1", "s2"]), n=1)
             elif k < 0.75:
                 cx.human_edit(r, nm)
         shas.append(cx.commit(r, f"c{rnd}"))
@@ -401,7 +406,7 @@ def sc_delete_rename(cx):
     cur[0:0] = cx.lines("main-top", 1)
     cx.write_lines(r, names[2], cur)
     cx.commit(r, "m1")
-    variant = cx.rng.choice(["rebase", "rebase-slow", "cherry-pick", "squash"])
+    variant = ["rebase-slow", "rebase", "cherry-pick", "squash"][cx.index % 4]
     cx.tags.append(f"delete-rename:{variant}")
     if variant.startswith("rebase"):
         r.git("checkout", "-q", "feature")
@@ -551,7 +556,7 @@ def plan(tier, seed):
     reps = 2 if tier == "quick" else 14
     jobs = []
     for name in SCENARIOS:
-        k = 1 if name in ("newline-name", "large-600") else reps
+        k = 1 if name in ("newline-name", "large-600") else (max(reps, 4) if name == "delete-rename" else reps)
         for i in range(k):
             jobs.append((f"{name}#{i}", seed * 1000 + i))
     if tier == "thorough":
